@@ -29,6 +29,7 @@ handed to a conditional update is never None and absent refs are created with ad
 R6 whatever a method writes to packed-refs is the cached view get_packed_refs() answers from, or that cache is replaced
 on every normal path after the write (the value in force for the next conditional update is read through the cache).
 R7 a method that rewrites packed-refs has no way out that skips (re)reading packed-refs first.
+R8 (fourth round) remove_if_equals passes self._remove_packed_ref(name) on every path to `return True`.
 Does not decide: atomicity between the read and the write (no lock file on arbitrary transports).
 """
 ASSUMPTIONS = ["dulwich RefsContainer semantics: ZERO_SHA stands for an absent ref in comparisons"]
@@ -337,10 +338,21 @@ def run(ctx):
                         n_all += 1
     ctx.extra["cas_call_sites"] = n_all
     ctx.check("R3-sites-found", IR, n_all >= 1, f"{n_all} conditional-update call sites found in breezy/ (non-test)")
+    # ---- R8: a successful delete removes the ref in both of its storage forms ------------------------------------------------
+    from ..astutil import const_value as _cv8
+    from ..rules import calling as _calling8
+
+    frm, grm, wrm = fn_cfg(ctx, TG, "TransportRefsContainer.remove_if_equals")
+    rp = need(wrm, _calling8(grm, attr="_remove_packed_ref", recv="self"), "self._remove_packed_ref(name)")
+    okret = [n.id for n in grm.nodes if n.kind == "stmt" and isinstance(n.ast, ast.Return) and _cv8(n.ast.value, None) is True]
+    need(wrm, okret, "return True")
+    skip = sorted(set(okret) & grm.reach([grm.entry], avoid=set(rp), include_src=True))
+    ctx.check("R8-delete-removes-packed-entry", wrm, not skip, "every path to `return True` passes self._remove_packed_ref(name) — whether or not a loose file existed", message="remove_if_equals reports success on a path that does not remove the packed-refs entry (only when no loose file existed?): a ref that is both loose and packed — the normal state after `git pack-refs` and a later move of the ref — is half deleted and reappears at its old packed value; a tag dropped by uncommit comes back")
 
 
 _FIX_SET = "        if old_ref is not None:\n            orig_ref = self.read_loose_ref(realname)\n            if orig_ref is None:\n                orig_ref = self.get_packed_refs().get(realname, ZERO_SHA)\n            if orig_ref != old_ref:\n                return False\n"
 MUTANTS = [
+    Mutant("packed entry removed only when no loose file existed", TG, "        with contextlib.suppress(NoSuchFile):\n            transport.delete(urlutils.quote_from_bytes(name))\n        self._remove_packed_ref(name)\n        return True\n", "        try:\n            transport.delete(urlutils.quote_from_bytes(name))\n        except NoSuchFile:\n            self._remove_packed_ref(name)\n        return True\n", expect="R8-delete-removes-packed-entry"),
     Mutant("packed-refs rewritten from the cached view", TG, "        self._packed_refs = None\n        self.get_packed_refs()\n\n        if name not in self._packed_refs:\n            return\n", "        if name not in self.get_packed_refs():\n            return\n", expect="R7-packed-rewrite-reads-state"),
     Mutant("add_if_new overwrites refs whose symref chain cannot be resolved", TG, "        except (KeyError, IndexError):\n            realname = name\n        self._check_refname(realname)\n        if realname == b\"HEAD\":", "        except (KeyError, IndexError, SymrefLoop):\n            realname = name\n        self._check_refname(realname)\n        if realname == b\"HEAD\":", expect="R2-add-if-new"),
     Mutant("packed removal skipped while nothing is cached", TG, "    def _remove_packed_ref(self, name):\n", "    def _remove_packed_ref(self, name):\n        if self._packed_refs is None:\n            return\n", expect="R7-packed-rewrite-reads-state"),
